@@ -47,7 +47,8 @@ impl<T: Clone + TTOverwriteable> TranspositionTable<T> {
     }
 
     pub fn resize(&mut self, size_mb: usize) {
-        if self.size == size_mb {
+        // A freshly constructed table has no slots yet, whatever its nominal size
+        if self.size == size_mb && !self.data.is_empty() {
             return;
         }
 
